@@ -31,6 +31,7 @@ func main() {
 	mode := fs.String("mode", "", "unit mode: '', sweep, own")
 	dump := fs.Bool("dump", false, "keep and print SMT file names")
 	timeout := fs.Int("timeout", 10, "per-obligation solver timeout (s)")
+	only := fs.String("only", "", "unit: solve only obligations whose name contains this")
 	var pos []string
 	args := os.Args[2:]
 	// allow flags after positionals
@@ -59,6 +60,20 @@ func main() {
 				units = append(units, p.verifyLemma(strings.TrimPrefix(key, "lemma:")))
 			} else {
 				units = append(units, p.verifyFunc(key, *mode))
+			}
+		}
+		if *only != "" {
+			for _, u := range units {
+				if u.Enc == nil {
+					continue
+				}
+				var keep []*Obligation
+				for _, o := range u.Enc.obls {
+					if strings.Contains(o.Name, *only) {
+						keep = append(keep, o)
+					}
+				}
+				u.Enc.obls = keep
 			}
 		}
 		work := filepath.Join(*verif, "work", "unit")
